@@ -100,9 +100,11 @@ func (p *parser) parseStatement() ast.Statement {
 		comments = p.comments.FetchAll()
 	}
 
+	start := p.idx
 	expression := p.parseExpression()
 
-	if identifier, isIdentifier := expression.(*ast.Identifier); isIdentifier && p.token == token.COLON {
+	// 12.12: a label is an Identifier token; "(a): ;" is not a labelled statement.
+	if identifier, isIdentifier := expression.(*ast.Identifier); isIdentifier && identifier.Idx == start && p.token == token.COLON {
 		// LabelledStatement
 		colon := p.idx
 		if p.mode&StoreComments != 0 {
